@@ -527,6 +527,15 @@ func (s *Source) Ack(ctx context.Context, p []opencdc.Position) error {
 
 	// lock as we are updating the state and leave it locked so the persister
 	// can safely prepare the connector before it stores it
+	for _, pos := range p {
+		if len(pos) == 0 {
+			// Storing an empty position would wipe the durable source position
+			// (a restart would re-read everything) and the plugin can not
+			// acknowledge it either. The record stays unacknowledged.
+			return cerrors.New("refusing to acknowledge an empty position to the source connector")
+		}
+	}
+
 	s.Instance.Lock()
 	defer s.Instance.Unlock()
 	s.Instance.State = SourceState{Position: p[len(p)-1]}
